@@ -79,8 +79,35 @@ Theorem C05_twoloops_refuted : exists its inp n,
 Proof. exact twoloops_refuted_ex. Qed.
 Print Assumptions C05_twoloops_refuted.
 
+(* ---------------------------------------------------------------- names bound inside a block of the prologue *)
+(* For every program with at most one [while True:] as last item: a name bound ANYWHERE in the prologue - by a depth-0
+   statement or inside an if / else / for / while / try / except block, at any nesting depth - is never declared again
+   inside loop(): no [VarDecl] node for it at any depth of loop_body (an assignment to it in the main loop is a plain
+   assignment to the sketch global, so the value carries over from pass to pass), and it is not a local of loop(). *)
+Theorem C05_prologue_names_never_redeclared : forall its x, one_main_last its = true ->
+  mem_name x (flat_map assigned_stmt (fst (split its))) = true ->
+  mem_name x (flat_map vardecls_irn (ir_loop its)) = false /\ mem_name x (locals_of its) = false.
+Proof. exact prologue_names_global. Qed.
+Print Assumptions C05_prologue_names_never_redeclared.
+
+(* flag = 0; n = 2 / if flag: step = 10 else: step = 20 / for _ in range(4): total = 2 / while n: n = n - 1; w = 7 /
+   try: q = 5 except: q = 6 / while True: total = total + 1; step = step + 1; w = w + 1; q = q + 1; mon.write(each):
+   inside the guard of C05_trace_is_pythons_partial; every name is a global, loop_body only assigns, values persist *)
+Example C05_promoted_nonvacuous :
+  transl_ok w_promoted = true /\ vars_ok w_promoted = true /\ vars_persist w_promoted = true /\
+  one_main_last w_promoted = true /\
+  globals_of w_promoted = [n_flag; n_n; n_step; n_total; n_w; n_q] /\ locals_of w_promoted = [] /\
+  ir_loop w_promoted = [NVarAssign n_total; NVarAssign n_step; NVarAssign n_w; NVarAssign n_q;
+                        NShow n_total; NShow n_step; NShow n_w; NShow n_q] /\
+  py_exec 2 w_promoted = [EVal n_total 3; EVal n_step 21; EVal n_w 8; EVal n_q 6;
+                          EVal n_total 4; EVal n_step 22; EVal n_w 9; EVal n_q 7] /\
+  obs (exec no_input 2 w_promoted) = py_exec 2 w_promoted.
+Proof. exact promoted_example. Qed.
+Print Assumptions C05_promoted_nonvacuous.
+
 (* ---------------------------------------------------------------- break guard *)
-(* a [break] separated from [while True:] (or from the top level) by [if]s only is rejected *)
+(* a [break] separated from [while True:] (or from the top level) only by [if] / [else] / [try] / [except] lines
+   ([brk_at]: any nesting of them) is rejected *)
 Theorem C05_break_guard : forall its,
   (forall body, In (IMainLoop body) its -> brk_at body -> transl_ok its = false) /\
   (forall s, In (IStmt s) its -> brk_at [s] -> transl_ok its = false).
@@ -88,7 +115,8 @@ Proof. exact break_guard_rejects. Qed.
 Print Assumptions C05_break_guard.
 
 (* in an accepted program setup() runs to its last statement and no pass of loop() is cut short,
-   whatever the store and the button history (breaks of inner [for] loops stay inside them) *)
+   whatever the store and the button history (breaks of inner [for] / [while] loops stay inside them; a nested
+   [while x:] that needs more than [while_fuel] iterations leaves the model: sticky flag, no break) *)
 Theorem C05_break_never_leaves_main : forall its, transl_ok its = true ->
   (forall m, snd (run_annT (p_G (transl its)) m true (st0 (transl its)) (p_setup (transl its)) v0) = false) /\
   (forall m inp v h, snd (run_pass m inp (transl its) v h) = false).
@@ -96,11 +124,24 @@ Proof. exact break_guard_sound. Qed.
 Print Assumptions C05_break_never_leaves_main.
 
 Example C05_break_guard_nonvacuous :
-  transl_ok [IMainLoop [SIf n_flag [SBreak]]] = false /\
-  transl_ok [IMainLoop [SFor 2 [SIf n_flag [SBreak]]]] = true /\
+  transl_ok [IMainLoop [SIf n_flag [SBreak] []]] = false /\
+  transl_ok [IMainLoop [SFor 2 [SIf n_flag [SBreak] []]]] = true /\
   transl_ok [IStmt SBreak] = false.
 Proof. exact break_guard_examples. Qed.
 Print Assumptions C05_break_guard_nonvacuous.
+
+(* handler bodies, else branches and try bodies inherit the guard; an inner for / while in between makes the break legal *)
+Example C05_break_handler_nonvacuous :
+  transl_ok [IMainLoop [STry [SMark 1 None] [SBreak]]] = false /\
+  transl_ok [IMainLoop [STry [SMark 1 None] [SIf n_flag [SMark 2 None] [SBreak]]]] = false /\
+  transl_ok [IMainLoop [STry [SBreak] [SMark 1 None]]] = false /\
+  transl_ok [IMainLoop [SIf n_flag [SMark 1 None] [SBreak]]] = false /\
+  transl_ok [IMainLoop [SFor 2 [STry [SMark 1 None] [SBreak]]]] = true /\
+  transl_ok [IMainLoop [SWhile n_flag [STry [SMark 1 None] [SIf n_flag [] [SBreak]]]]] = true /\
+  transl_ok [IStmt (STry [SMark 1 None] [SBreak])] = false /\
+  transl_ok [IStmt (SWhile n_flag [STry [SMark 1 None] [SBreak]])] = true.
+Proof. exact break_handler_examples. Qed.
+Print Assumptions C05_break_handler_nonvacuous.
 
 (* ---------------------------------------------------------------- configured before use *)
 (* For every accepted program inside [well_placed] - devices declared by top-level statements before the main loop
